@@ -311,6 +311,55 @@ def rule_6(ctx):
     ctx.floor(n, 'evaluator-state scenarios')
 
 
+LOGIC_CELLS = {
+    'A1': 5, 'A2': 0, 'A3': 4e-16, 'B1': '=A1>0', 'B2': '=NOT(A2=0)', 'B3': '=IF(A3,TRUE,FALSE)',
+    'Z1': '=AND(B1:B4)', 'Z2': '=OR(B1:B4)', 'Z3': '=IF(AND(B1:B4),"all",IF(OR(B1:B4),"some","none"))', 'Z4': '=AND(A1:A3)', 'Z5': '=OR(A2,B4)',
+    'L1': '=IF(A1>0,1,NOSUCHFUNC(1))', 'L2': '=IF(A2>0,NOSUCHFUNC(1),2)', 'L3': '=IF(A1>0,A1,L3)', 'L4': '=IF(A2,1/0,"ok")', 'L5': '=IF(A1,"t")',
+    'L6': '=IF(A2,"t")', 'L7': '=IF(B4,"t","blank is false")', 'L8': '=IF(NOT(0),IF(AND(1,OR(0,A3)),"in","out"),"never")', 'L9': '=IF(A2,L9,IF(A1,"x",L9))',
+    'T1': '=IF(1E-16,7,8)', 'T2': '=AND(1,A3)', 'T3': '=OR(0,A3)', 'T4': '=NOT(A3)', 'T5': '=IF(A3,"nz","z")', 'T6': '=NOT(A2)', 'T7': '=IF(-0.5,"nz","z")',
+}
+LOGIC_EXPECTED = {
+    'B1': True, 'B2': False, 'B3': True, 'Z1': False, 'Z2': True, 'Z3': 'some', 'Z4': False, 'Z5': False,
+    'L1': 1, 'L2': 2, 'L3': 5, 'L4': 'ok', 'L5': 't', 'L6': False, 'L7': 'blank is false', 'L8': 'in', 'L9': 'x',
+    'T1': 7, 'T2': True, 'T3': True, 'T4': False, 'T5': 'nz', 'T6': True, 'T7': 'nz',
+}
+
+
+def _as_value(v):
+    if isinstance(v, bool):
+        return ('Boolean', v)
+    if isinstance(v, (int, float)):
+        return ('Number', v)
+    if isinstance(v, str) and v.startswith('#'):
+        return ('error', v)
+    return ('Text', v)
+
+
+def rule_7(ctx):
+    """A whole witness workbook, interpreted as written: IF / AND / OR / NOT over cells, ranges of formula cells, tiny non-zero
+    numbers, blanks, branches that would fail (unknown function, division by zero, a reference to the cell itself) - every cell
+    against its hand-computed value; then histories of set_cell_value / evaluate against freshly compiled models."""
+    from . import workbook as W
+    from . import scenarios as S
+    anchor = ctx.mod('xlfunctions.logical').func('IF')
+    wb = W.Workbook(ctx, LOGIC_CELLS)
+    for a, w in LOGIC_EXPECTED.items():
+        got = wb.value('Sheet1!' + a)
+        if isinstance(got, tuple) and got and got[0] == 'error-class':
+            got = ('error', W.error_code(ctx, got[1]))
+        ctx.expect(S.same(got, _as_value(w)), anchor, f'logic workbook: {a} = {LOGIC_CELLS[a]}',
+                   f'{a} = {LOGIC_CELLS[a]} evaluates to {got!r}, expected {w!r} (A1=5, A2=0, A3=4e-16, B4 empty): numbers are TRUE exactly when '
+                   'non-zero, blanks are skipped by AND/OR and FALSE as a condition, only the selected branch is evaluated, an evaluated error is '
+                   'the result')
+    steps = [('eval', 'Z1'), ('eval', 'Z3'), ('set', 'A2', 1), ('eval', 'Z1'), ('eval', 'Z3'), ('eval', 'L2'), ('set', 'A3', 0), ('eval', 'Z1'),
+             ('eval', 'Z3'), ('eval', 'T2'), ('eval', 'T5'), ('set', 'A1', -1), ('eval', 'L1'), ('eval', 'Z2'), ('eval', 'L5'), ('set', 'A2', 0),
+             ('eval', 'Z3'), ('eval', 'Z2'), ('eval', 'L6')]
+    hist_cells = {k: v for k, v in LOGIC_CELLS.items() if k[0] in 'AB' or k in ('Z1', 'Z2', 'Z3', 'L1', 'L2', 'L5', 'L6', 'T2', 'T5')}
+    S.check_history(ctx, anchor, 'logic history', hist_cells, steps, cache={}, check_stored=False,
+                    why='AND / OR / IF over ranges and cells see the current values of their precedents.')
+    ctx.floor(35, 'logic cells + history steps')
+
+
 RULES = [
     ('C10.1', 'thunks are not forced by FunctionNode.eval', rule_1),
     ('C10.2', 'IF evaluates the condition once and exactly one branch', rule_2),
@@ -318,4 +367,5 @@ RULES = [
     ('C10.4', 'defaults of thunk parameters are thunks', rule_4),
     ('C10.5', 'thunk results are checked for errors before their truth value is taken', rule_5),
     ('C10.6', 'a failed branch evaluation leaves no trace on the evaluator (shared with C06.2)', rule_6),
+    ('C10.7', 'whole witness workbook: truth rules, lazy branches, ranges of formula cells, histories', rule_7),
 ]
